@@ -42,7 +42,7 @@ RULE = (
     "distinct by (tree, record layout, schedule hash)"
 )
 ASSUMPTIONS = [
-    "the value of a (scope, type) after a raising merge is unspecified: raising merges use their own metric type, only 'never raises' is judged there",
+    "a record whose merge function raises is dropped (recording never raises); the records folded before it must stay - the only reading under which 'left fold over its records' stays meaningful",
     "a record made after the landing scope's completion callback already ran is only required not to raise",
     "log-order of the harness (single thread) is the recording order",
 ]
@@ -72,7 +72,9 @@ def build(tree: dict[str, Any], rng: random.Random) -> list[dict[str, Any]]:
         out = []
         for _ in range(k):
             t = rng.choice(("Mx", "Mx", "Ms", "Mr", "Mf"))
-            out.append({"op": "record", "type": t, "id": next(rid), "merge": MERGE_OF[t]})
+            # now and then a raising merge is used on an ordinary type: the failing record must be dropped, nothing else
+            merge = "raise" if rng.random() < 0.12 else MERGE_OF[t]
+            out.append({"op": "record", "type": t, "id": next(rid), "merge": merge})
         return out
 
     def node(i: int) -> dict[str, Any]:
@@ -151,6 +153,8 @@ def fold(records: list[tuple[int, str, str]]) -> dict[str, Any]:
     vals: dict[str, Any] = {}
     for rid, t, merge in records:
         cur = vals.get(t)
+        if merge == "raise" and cur is not None:
+            continue  # the merge function raised: this record is dropped, everything folded so far stays
         if t == "Mx":
             vals[t] = ("Mx", (rid,)) if cur is None or merge == "default" else ("Mx", (*cur[1], rid))
         elif t == "Ms":
@@ -158,7 +162,7 @@ def fold(records: list[tuple[int, str, str]]) -> dict[str, Any]:
         elif t == "Mr":
             vals[t] = ("Mr", rid)
         else:
-            vals.setdefault(t, ("Mf", rid))  # raising merge: first record stays; later ones unspecified
+            vals.setdefault(t, ("Mf", rid))  # Mf is only ever recorded with the raising merge: the first record stays
     return vals
 
 
@@ -256,9 +260,9 @@ def judge(R: Recorder, tree: dict[str, Any], prog: list[dict[str, Any]], chooser
                 kind = "foreign-or-lost-record"
             R.monitor("fold", got == want, where={**wi, "kind": kind, "type": t}, detail=f"{name}: read({t}) = {got}, reference fold of {[(r[0], r[2]) for r in per[name] if r[1] == t]} = {want}", case=rec)
         got_mf = reads["read"].get("Mf")
-        first_mf = next((r[0] for r in per[name] if r[1] == "Mf"), None)
-        if first_mf is None:
-            R.monitor("fold", got_mf is None, where={**wi, "kind": "foreign-or-lost-record", "type": "Mf"}, detail=f"{name}: read(Mf) = {got_mf} but nothing was recorded there", case=rec)
+        want_mf = own[name].get("Mf")
+        R.monitor("fold", got_mf == want_mf, where={**wi, "kind": "lost-after-failed-merge" if want_mf is not None and got_mf is None else "foreign-or-lost-record", "type": "Mf"},
+                  detail=f"{name}: read(Mf) = {got_mf}, reference {want_mf} (a record whose merge raises is dropped, earlier records stay); records {[(r[0], r[2]) for r in per[name] if r[1] == 'Mf']}", case=rec)
         mv = merged(i)
         want_view = sorted(mv.values())
         R.monitor("merged-view", reads["view"] == want_view, where={**wi, "kind": "merged-view-mismatch", "nested": len(attached[i]) > 0},
